@@ -263,7 +263,8 @@ func FTypeToGo(ft FType) string {
 		ft := _v1.Value
 		return fTupleToGo(FTypeToGo, ft)
 	case FType_FFieldAccess:
-		return "FieldAccess_Unresoled"
+		fa := _v1.Value
+		return ((("FieldAccess_Unresoled_" + FTypeToGo(fa.RecType)) + "_") + fa.FieldName)
 	case FType_FTypeVar:
 		fp := _v1.Value
 		return fp.Name
